@@ -6,13 +6,8 @@ import BloomVerif.Model.Expr
 import BloomVerif.Model.NumVal
 namespace BloomVerif
 
-/-- `PrefilterCondition` of query.go. -/
-structure PreCond where
-  ConditionType : String := ""
-  PartitionCondition : Option StringCondition := none
-  MinMaxFieldName : String := ""
-  MinMaxCondition : Option NumericCondition := none
-deriving Repr, Inhabited
+/-- `PrefilterCondition` of query.go (defined in Types so that the regenerated code can name it). -/
+abbrev PreCond := PrefilterCondition
 
 abbrev PreExpr := Expr PreCond
 
